@@ -59,7 +59,7 @@ def shards_for(tier, entries, nmax):
 
 
 def failsets(n, mask, kinds, maxf, exc_kinds):
-    tasks = [i for i in range(n) if kinds[i] in "tnu"]
+    tasks = [i for i in range(n) if kinds[i] in "tnum"]
     for r in range(1, maxf + 1):
         for sub in itertools.combinations(tasks, r):
             for ek in exc_kinds:
@@ -157,6 +157,8 @@ def same(a, b):
         return False
     if isinstance(a, (list, tuple)):
         return len(a) == len(b) and all(same(x, y) for x, y in zip(a, b))
+    if isinstance(a, dict):
+        return a.keys() == b.keys() and all(same(a[k], b[k]) for k in a)
     return a == b
 
 
@@ -181,7 +183,7 @@ def check_C02(case, e, K, ctx, viol):
         viol(f"C02:{e.status}:{type(e.value).__name__}", f"{e.status}: {e.value!r} choices={e.choices}")
         return
     need = needed(n, mask, flat(req_form))
-    want_run = sorted(i for i in need if kinds[i] in "tnu")
+    want_run = sorted(i for i in need if kinds[i] in "tnum")
     if sorted(e.log) != want_run:
         viol("C02:executed-multiset", f"task bodies ran {e.log}, needed exactly once each {want_run} choices={e.choices}")
         return
@@ -192,7 +194,7 @@ def check_C02(case, e, K, ctx, viol):
         stack = list(deps[i])
         while stack:
             j = stack.pop()
-            if kinds[j] in "tnu":
+            if kinds[j] in "tnum":
                 if pos.get(j, 1 << 30) > pos[i]:
                     viol("C02:body-before-dependency", f"task {i} ran before dependency {j}: {e.log} choices={e.choices}")
                     return
